@@ -610,6 +610,11 @@ def finish(ctx, lean, level_text, trusted, rule, extra_cov=None):
         lean_failures=lean['failures'][:3],
         notes=ctx.notes,
     )
+    if not lean['obligations']:
+        # no theorem registered (yet) for this property: the schema's generic keys carry the evidence
+        for k in ('obligations', 'discharged', 'checker_cmd'):
+            cov.pop(k, None)
+        cov['explanation'] = 'no Lean obligation registered for this property yet; correspondence and oracle coverage only'
     if extra_cov:
         cov.update(extra_cov)
     ev = dict(
